@@ -79,6 +79,10 @@ pub struct CeremonyTrace {
     /// spelled `+00:00`, bit 3 null members left out)
     #[serde(default)]
     pub raw_path: Option<u8>,
+    /// signature entries (indices into the parsed block's list) repeated in memory after parsing: the
+    /// block object that is verified did not come out of the parser as it is
+    #[serde(default)]
+    pub mem_sigdup: Vec<usize>,
 }
 
 /// The same key material declared with another scheme (None if the library refuses to build it).
@@ -306,10 +310,19 @@ pub fn finish(t: &CeremonyTrace, p: &Prepared) -> CeremonyOutcome {
     };
     out.text = text.clone();
     let content_same_value = cur["signed"] == state3["signed"];
-    let parsed: Metablock = match serde_json::from_str(&text) {
+    // the block comes back from the wire: from a string, or — when it went out through a stream — through
+    // the library's streaming reader over a stream that delivers it in pieces
+    let read_back: Result<Metablock, String> = match &t.wire {
+        Wire::Writer { chunked, eintr_pct } => {
+            let rd = crate::simio::SimReader::new(text.as_bytes(), t.io_seed ^ 0x5eed, *chunked, *eintr_pct, None);
+            Json::from_reader::<_, Metablock>(rd).map_err(|e| e.to_string())
+        }
+        _ => serde_json::from_str(&text).map_err(|e| e.to_string()),
+    };
+    let parsed: Metablock = match read_back {
         Ok(m) => m,
         Err(e) => {
-            out.parse_err = e.to_string();
+            out.parse_err = e;
             return out;
         }
     };
@@ -345,6 +358,11 @@ pub fn finish(t: &CeremonyTrace, p: &Prepared) -> CeremonyOutcome {
     for rep in 0..reps {
         let mut p = parsed.clone();
         let mut a = auth.clone();
+        for i in &t.mem_sigdup {
+            if let Some(sg) = p.signatures.get(*i).cloned() {
+                p.signatures.push(sg);
+            }
+        }
         if let Some(ps) = t.perm_seeds.get(rep) {
             if *ps != 0 {
                 let mut r = Rng::new(*ps);
@@ -409,11 +427,12 @@ pub fn judge_ceremony(t: &CeremonyTrace, o: &CeremonyOutcome) -> Vec<Finding> {
         }
     }
     let counting: BTreeSet<&String> = o.sig_truth.iter().filter(|(id, v)| *v && auth_ids.contains(id)).map(|(id, _)| id).collect();
-    let mut per_label: BTreeMap<&String, usize> = BTreeMap::new();
+    // (a key id re-spelled in another letter case is the same key listed again for this purpose)
+    let mut per_label: BTreeMap<String, usize> = BTreeMap::new();
     for (id, _) in &o.sig_truth {
-        *per_label.entry(id).or_default() += 1;
+        *per_label.entry(id.to_ascii_lowercase()).or_default() += 1;
     }
-    let once = per_label.values().all(|n| *n <= 1);
+    let once = per_label.values().all(|n| *n <= 1) && t.mem_sigdup.is_empty();
     let enough = t.threshold >= 1 && counting.len() as u64 >= t.threshold as u64;
     let any_ok = o.results.iter().any(|r| r.is_ok());
     let all_ok = o.results.iter().all(|r| r.is_ok());
@@ -737,6 +756,7 @@ fn base_trace(seed: u64, tier: Tier, mode: Mode) -> (CeremonyTrace, Rng) {
                 None
             }
         },
+        mem_sigdup: vec![],
     };
     (t, r)
 }
@@ -826,8 +846,13 @@ pub fn run_c04(tier: Tier, seed: u64, index: u64, rec: &mut RunRecord) {
                 t.labels.push("SIGDROP".into());
             }
             1 => {
-                t.ops.push(DocOp::SigDup(r.idx(n)));
-                t.labels.push("SIGDUP".into());
+                if r.chance(1, 4) {
+                    t.ops.push(DocOp::SigDupCase { at: r.idx(n) });
+                    t.labels.push("SIGDUP-UPPERCASE".into());
+                } else {
+                    t.ops.push(DocOp::SigDup(r.idx(n)));
+                    t.labels.push("SIGDUP".into());
+                }
             }
             2 => {
                 t.ops.push(DocOp::SigShuffle(r.next()));
@@ -864,6 +889,16 @@ pub fn run_c04(tier: Tier, seed: u64, index: u64, rec: &mut RunRecord) {
                 t.labels.push("SIGNONE".into());
             }
         }
+    }
+    if r.chance(1, 10) {
+        // the block object is put together in memory: an entry of its signature list is repeated after
+        // parsing (what a caller that merges signature lists, or signs with one key twice, ends up with)
+        let n = (m + t.resign.len()).max(1);
+        t.mem_sigdup.push(r.idx(n));
+        if r.chance(1, 3) {
+            t.mem_sigdup.push(r.idx(n));
+        }
+        t.labels.push("SIGDUP-IN-MEMORY".into());
     }
     if r.chance(1, 6) {
         // the content is edited after signing: no signature is valid over the block's content any more.
